@@ -144,6 +144,14 @@ fn absorb(agg: &mut Agg, scn: &Scenario, part: &Part, r: J) {
             }
         }
         "violation" => {
+            let mut r = r.clone();
+            if !part.classes.contains(&"*") && !part.classes.contains(&r.gs("class")) {
+                let wanted = r.ga("also").iter().map(|a| a.gs("class").to_string()).find(|c| part.classes.contains(&c.as_str()));
+                if let Some(c) = wanted {
+                    focus(&mut r, &c);
+                }
+            }
+            let r = &r;
             let class = r.gs("class").to_string();
             if part.classes.contains(&"*") || part.classes.contains(&class.as_str()) {
                 agg.violations.push(obj! {"scenario" => scn.name, "seed" => r.gu("seed"), "class" => class, "msg" => r.gs("msg"),
@@ -220,7 +228,25 @@ fn match_known<'a>(k: &'a Known, prop: &str, v: &J) -> Option<&'a J> {
 // ------------------------------------------------------------------------------------------------
 // minimisation and replay files
 
+/// A run may report several failed oracles (`also`): make `class` the run's class if it is among them.
+pub fn focus(r: &mut J, class: &str) {
+    if r.gs("outcome") != "violation" || r.gs("class") == class {
+        return;
+    }
+    let hit = r.ga("also").iter().find(|a| a.gs("class") == class).cloned();
+    if let Some(a) = hit {
+        let (pc, pm) = (r.gs("class").to_string(), r.gs("msg").to_string());
+        let mut rest: Vec<J> = r.ga("also").iter().filter(|x| x.gs("class") != class).cloned().collect();
+        rest.insert(0, obj! {"class" => pc, "msg" => pm});
+        r.set("class", a.gs("class").into());
+        r.set("msg", a.gs("msg").into());
+        r.set("also", J::Arr(rest));
+    }
+}
+
 fn same_failure(r: &J, class: &str) -> bool {
+    let mut r = r.clone();
+    focus(&mut r, class);
     r.gs("outcome") == "violation" && r.gs("class") == class
 }
 
@@ -350,6 +376,8 @@ pub fn write_replay(prop: &str, scn: &Scenario, plan: &J, sched_seed: u64, orig_
     if !same_failure(&r, class) {
         return None;
     }
+    let mut r = r;
+    focus(&mut r, class);
     let stats = r.get("stats").cloned().unwrap_or(J::Null);
     let dir = format!("{VERIF}/replays/{prop}");
     _ = std::fs::create_dir_all(&dir);
@@ -419,6 +447,7 @@ pub fn replay(path: &str) -> i32 {
         );
     }
     let h = r.get("stats").map_or("", |s| s.gs("log_hash")).to_string();
+    focus(&mut r, &class);
     println!("replay of {path} [{mode}]: outcome={} class={} log_hash={h} (recorded {})", r.gs("outcome"), r.gs("class"), f.gs("log_hash"));
     println!("  {}", r.gs("msg"));
     if same_failure(&r, &class) {
